@@ -231,6 +231,7 @@ async def play(lab: L.Lab, case: dict, port: int, bind_port: int | None) -> dict
                 'rx_len': len(s.rx),
                 'rx_tail': s.messages()[1].hex()[:80],
                 'tx': [[round(t, 4), len(d), d[18] if len(d) > 18 else -1] for t, d in s.tx_log],
+                'tx_opens': [[round(t, 4), d.hex()] for t, d in s.tx_log if len(d) > 18 and d[:16] == b'\xff' * 16 and d[18] == 1],
             }
         )
     peers = []
